@@ -810,6 +810,34 @@ def promised_points(expr, events, status_after):
     return sorted(set(pts))
 
 
+def _corpus_events():
+    t0 = 1_600_000_000_000
+    loc_a, loc_b = {"k": "test", "path": ["s", "a"]}, {"k": "test", "path": ["s", "b"]}
+    ev = [
+        {"e": "sessionStart"}, {"e": "suiteStart", "path": ["s"], "md": _md("s")},
+        {"e": "testStart", "path": ["s", "a"], "md": _md("a")},
+        {"e": "stepStart", "loc": loc_a, "desc": "st", "tid": 1},
+        {"e": "check", "loc": loc_a, "step": "st", "tid": 1, "desc": "c", "ok": False, "details": "1 is not 2"},
+        {"e": "stepEnd", "loc": loc_a, "desc": "st", "tid": 1},
+        {"e": "testEnd", "path": ["s", "a"]},
+        {"e": "testStart", "path": ["s", "b"], "md": _md("b", 1)},
+        {"e": "stepStart", "loc": loc_b, "desc": "st", "tid": 1},
+        {"e": "log", "loc": loc_b, "step": "st", "tid": 1, "level": "info", "msg": "hello"},
+        {"e": "stepEnd", "loc": loc_b, "desc": "st", "tid": 1},
+        {"e": "testEnd", "path": ["s", "b"]},
+        {"e": "testSkipped", "path": ["s", "c"], "md": _md("c", 2), "reason": "because"},
+        {"e": "suiteTeardownStart", "path": ["s"]},
+        {"e": "stepStart", "loc": {"k": "teardown", "path": ["s"]}, "desc": "td", "tid": 1},
+        {"e": "log", "loc": {"k": "teardown", "path": ["s"]}, "step": "td", "tid": 1, "level": "warn", "msg": "bye"},
+    ]
+    for i, e in enumerate(ev):
+        e["t"] = t0 + 10 * i
+    return ev
+
+
+_CORPUS_EVENTS = _corpus_events()
+
+
 class Snap(C.Stream):
     name = "C10.snap"
     quick_cases = 90
@@ -818,9 +846,17 @@ class Snap(C.Stream):
     thorough_seconds = 420
     chunk = 10
 
-    # witnesses / past disagreements: a failed test then a passed one (at_each_failed_test saves once in between);
-    # a stream that stops in the middle of a step; a test restarted after it ended (ill-formed: finished result replaced)
-    corpus = []
+    # replayed first: a failed test then a passed one (at_each_failed_test saves once in between) in a stream that stops
+    # in the middle of a step; the same stream with the finished test restarted (ill-formed: the finished result is
+    # replaced — `prefixB` and the oracle's prefix relation must both say "no")
+    corpus = [
+        {"kind": "gen", "label": "wf", "events": _CORPUS_EVENTS, "nb_threads": 1, "variant": 0, "alias": False, "every": 1,
+         "every_backend": "json", "clock": [10_000 + 750 * i for i in range(40)]},
+        {"kind": "gen", "label": "restart-test",
+         "events": _CORPUS_EVENTS[:7] + [dict(_CORPUS_EVENTS[2], t=1_600_000_000_050)] + _CORPUS_EVENTS[7:],
+         "nb_threads": 1, "variant": 1, "alias": True, "every": 0, "every_backend": "xml",
+         "clock": [10_000 + 250 * i for i in range(40)]},
+    ]
 
     def gen(self, rng, i):
         r = rng.random()
